@@ -262,6 +262,12 @@ func registerIntrinsics(e *Engine) {
 		}
 		return int64(0)
 	})
+	reg("internal/bytealg.CompareString", func(ex *Exec, fn *ssa.Function, a []Value) Value {
+		return ex.eng.intrinsics["internal/bytealg.Compare"](ex, fn, a)
+	})
+	// cloning a string is the identity on values
+	reg("internal/stringslite.Clone", func(ex *Exec, fn *ssa.Function, a []Value) Value { return a[0] })
+	reg("strings.Clone", func(ex *Exec, fn *ssa.Function, a []Value) Value { return a[0] })
 	reg("internal/bytealg.MakeNoZero", func(ex *Exec, fn *ssa.Function, a []Value) Value {
 		n := ex.concreteInt(a[0], types.Typ[types.Int])
 		s := make(Slice, n)
@@ -739,8 +745,17 @@ func (ex *Exec) sprintf(formatV, argsV Value) Value {
 func (ex *Exec) sprintln(argsV Value, newline bool) Value {
 	args, _ := argsV.(Slice)
 	var out []Value
+	isStr := func(v Value) bool {
+		itf, ok := v.(Iface)
+		if !ok || itf.T == nil {
+			return false
+		}
+		b, ok := itf.T.Underlying().(*types.Basic)
+		return ok && b.Info()&types.IsString != 0
+	}
 	for i, a := range args {
-		if i > 0 && newline {
+		// Sprintln: always a space; Sprint: a space when neither neighbour is a string
+		if i > 0 && (newline || (!isStr(args[i-1]) && !isStr(a))) {
 			out = append(out, int64(' '))
 		}
 		b, why := ex.fmtOperand('v', a)
